@@ -1,9 +1,9 @@
 import Driver.Util
 import PytezosModel.Michelson.AddressForge
+import PytezosModel.Crypto.RealHash
 open Driver Base58 Impl.Encoding Impl.AddrForge
 
-/-! line protocol (strings and bytes in hex, `-` = empty); last word = `<cks>` (`key:check,…`, `-` for none):
-the real double-SHA-256 checksums of the byte strings the call may need, computed by the harness.
+/-! line protocol (strings and bytes in hex, `-` = empty):
   `fa <0|1> <value>`  forge_address(value, tz_only)      `ua <data>`   unforge_address
   `fc <value>`        forge_contract                     `uc <data>`   unforge_contract
   `fpk <value>`       forge_public_key                   `upk <data>`  unforge_public_key
@@ -12,39 +12,17 @@ the real double-SHA-256 checksums of the byte strings the call may need, compute
   `tw <type> <value>` Type.from_micheline_value({'string': value}).to_micheline_value('optimized')
   `tr <type> <data>`  Type.from_micheline_value({'bytes': data}).to_micheline_value('readable')
 output `ok <hex>` | `err ValueError` | `err KeyError` | `other` | `err` (typed streams: any error).
-A checksum that is needed but was not supplied is reported (`err cks-missing`), never defaulted. -/
+The Base58Check checksum is `RealHash.cks` (executable double SHA-256): the address / key / signature strings the
+reading direction prints are computed entirely by the model, nothing is handed in by the harness. -/
 
-def parsePairs (s : String) : Option (List (List Nat × List Nat)) :=
-  if s = "-" then some [] else
-  (s.splitOn ",").mapM fun kv =>
-    match kv.splitOn ":" with
-    | [k, c] => do let k ← parseHex k; let c ← parseHex c; pure (k, c)
-    | _ => none
+def cks : List Nat → List Nat := RealHash.cks
 
-def cksOf (pairs : List (List Nat × List Nat)) (v : List Nat) : List Nat :=
-  match pairs.find? (·.1 == v) with
-  | some p => p.2
-  | none => []
-
-def hasKey (pairs : List (List Nat × List Nat)) (v : List Nat) : Bool := pairs.any (·.1 == v)
-
-/-- the byte string whose checksum a Base58Check string carries -/
-def bodyOf (s : List Nat) : Option (List Nat) :=
-  (b58dec (rstrip s)).map fun r => r.take (r.length - 4)
-
-/-- a value handed in: its checksum must have been supplied (if it decodes at all) -/
-def inputCovered (pairs : List (List Nat × List Nat)) (s : List Nat) : Bool :=
-  match bodyOf s with
-  | none => true
-  | some b => hasKey pairs b
-
-def render (pairs : List (List Nat × List Nat)) : Except Impl.AddrForge.Err (List Nat) → Bool → String
-  | .ok v, isString =>
-    if isString && !(inputCovered pairs (v.takeWhile (· != 37))) then "err cks-missing" else s!"ok {toHex v}"
-  | .error .unrecognisedSource, _ => "unrecognised-source"
-  | .error .valueError, _ => "err ValueError"
-  | .error .keyError, _ => "err KeyError"
-  | .error .nonAscii, _ => "out-of-model"
+def render : Except Impl.AddrForge.Err (List Nat) → String
+  | .ok v => s!"ok {toHex v}"
+  | .error .unrecognisedSource => "unrecognised-source"
+  | .error .valueError => "err ValueError"
+  | .error .keyError => "err KeyError"
+  | .error .nonAscii => "out-of-model"
 
 /-- `blind_unpack`: `with suppress(ValueError)` / `(ValueError, KeyError)` around the four typed readers -/
 def blindUnpack (cks : List Nat → List Nat) (data : List Nat) : Option (List Nat) :=
@@ -112,64 +90,38 @@ def typedRead (cks : List Nat → List Nat) (ty : String) (d : List Nat) : Optio
   | .error _ => some (.error ())
   | .ok v => some (match fromValue cks ty v with | some v => .ok v | none => .error ())
 
+def withHex (h : String) (f : List Nat → String) : String :=
+  match parseHex h with
+  | some v => f v
+  | none => "bad-op"
+
 def handle (line : String) : String :=
-  let ws := words line
-  match ws.getLast?, ws.dropLast with
-  | some ps, op :: args =>
-    match parsePairs ps with
-    | none => "bad-op"
-    | some pairs =>
-      let cks := cksOf pairs
-      match op, args with
-      | "fa", [tz, v] =>
-        match parseHex v with
-        | some v => if !inputCovered pairs v then "err cks-missing" else render pairs (forgeAddress cks v (tz == "1")) false
-        | none => "bad-op"
-      | "fc", [v] =>
-        match parseHex v with
-        | some v =>
-          if !inputCovered pairs (v.takeWhile (· != 37)) then "err cks-missing" else render pairs (forgeContract cks v) false
-        | none => "bad-op"
-      | "fpk", [v] =>
-        match parseHex v with
-        | some v => if !inputCovered pairs v then "err cks-missing" else render pairs (forgePublicKey cks v) false
-        | none => "bad-op"
-      | "fb58", [v] =>
-        match parseHex v with
-        | some v => if !inputCovered pairs v then "err cks-missing" else render pairs (forgeBase58 cks v) false
-        | none => "bad-op"
-      | "ua", [d] => match parseHex d with | some d => render pairs (unforgeAddress cks d) true | none => "bad-op"
-      | "uc", [d] => match parseHex d with | some d => render pairs (unforgeContract cks d) true | none => "bad-op"
-      | "upk", [d] => match parseHex d with | some d => render pairs (unforgePublicKey cks d) true | none => "bad-op"
-      | "uci", [d] => match parseHex d with | some d => render pairs (unforgeChainId cks d) true | none => "bad-op"
-      | "usig", [d] => match parseHex d with | some d => render pairs (unforgeSignature cks d) true | none => "bad-op"
-      | "bu", [d] =>
-        match parseHex d with
-        | some d =>
-          match blindUnpack cks d with
-          | some s => if !inputCovered pairs s then "err cks-missing" else s!"ok {toHex s}"
-          | none => "other"
-        | none => "bad-op"
-      | "tw", [ty, v] =>
-        match parseHex v with
-        | some v =>
-          if !inputCovered pairs (v.takeWhile (· != 37)) then "err cks-missing" else
-          match typedWrite cks ty v with
-          | some b => s!"ok {toHex b}"
-          | none => "err"
-        | none => "bad-op"
-      | "tr", [ty, d] =>
-        match parseHex d with
-        | some d =>
-          match typedRead cks ty d with
-          | none => "out-of-model"
-          | some (.error _) => "err"
-          | some (.ok s) => if !inputCovered pairs (s.takeWhile (· != 37)) then "err cks-missing" else s!"ok {toHex s}"
-        | none => "bad-op"
-      | "tables", [] =>
-        joinWith " " (Generated.C10.forgeAddressChain.map fun e => s!"{toHex e.1}:{toHex e.2.1}:{toHex e.2.2}") ++ " | " ++
-        joinWith " " (Generated.C10.keyTagOfPrefix.map fun e => s!"{toHex e.1}:{e.2}")
-      | _, _ => "bad-op"
-  | _, _ => "bad-op"
+  match words line with
+  | ["fa", tz, v] => withHex v fun v => render (forgeAddress cks v (tz == "1"))
+  | ["fc", v] => withHex v fun v => render (forgeContract cks v)
+  | ["fpk", v] => withHex v fun v => render (forgePublicKey cks v)
+  | ["fb58", v] => withHex v fun v => render (forgeBase58 cks v)
+  | ["ua", d] => withHex d fun d => render (unforgeAddress cks d)
+  | ["uc", d] => withHex d fun d => render (unforgeContract cks d)
+  | ["upk", d] => withHex d fun d => render (unforgePublicKey cks d)
+  | ["uci", d] => withHex d fun d => render (unforgeChainId cks d)
+  | ["usig", d] => withHex d fun d => render (unforgeSignature cks d)
+  | ["bu", d] => withHex d fun d =>
+    match blindUnpack cks d with
+    | some s => s!"ok {toHex s}"
+    | none => "other"
+  | ["tw", ty, v] => withHex v fun v =>
+    match typedWrite cks ty v with
+    | some b => s!"ok {toHex b}"
+    | none => "err"
+  | ["tr", ty, d] => withHex d fun d =>
+    match typedRead cks ty d with
+    | none => "out-of-model"
+    | some (.error _) => "err"
+    | some (.ok s) => s!"ok {toHex s}"
+  | ["tables"] =>
+    joinWith " " (Generated.C10.forgeAddressChain.map fun e => s!"{toHex e.1}:{toHex e.2.1}:{toHex e.2.2}") ++ " | " ++
+    joinWith " " (Generated.C10.keyTagOfPrefix.map fun e => s!"{toHex e.1}:{e.2}")
+  | _ => "bad-op"
 
 def main : IO Unit := mainWith handle
